@@ -629,18 +629,24 @@ impl IVP for Rot {
 
 // ------------------------------------------------------------------------------------------------------------ C14
 /// Prothero–Robinson system  y_i' = -lam_i (y_i - phi_i(t)) + phi_i'(t),  phi_i(t) = cos(t + i)   (solution y = phi)
-struct PR { lam: Vec<f64>, sign: f64, user_jac: bool }
+/// Prothero–Robinson: y_i' = -sign lam_i (y_i - phi_i(t)) + phi_i'(t), phi_i = cos(t + i), or — with `big` = S > 0 — the large
+/// negative phi_i = -S (2 + cos(t + i)).  Without `user_jac` the Jacobian is the trait's default (finite differences).
+struct PR { lam: Vec<f64>, sign: f64, user_jac: bool, big: f64 }
+impl PR {
+    fn phi(&self, t: f64, i: usize) -> f64 { if self.big == 0.0 { (t + i as f64).cos() } else { -self.big * (2.0 + (t + i as f64).cos()) } }
+    fn dphi(&self, t: f64, i: usize) -> f64 { if self.big == 0.0 { -(t + i as f64).sin() } else { self.big * (t + i as f64).sin() } }
+}
 impl IVP for PR {
     fn ode(&self, t: f64, y: &[f64], d: &mut [f64]) {
-        for i in 0..y.len() { let ph = (t + i as f64).cos(); d[i] = -self.sign * self.lam[i] * (y[i] - ph) - (t + i as f64).sin(); }
+        for i in 0..y.len() { d[i] = -self.sign * self.lam[i] * (y[i] - self.phi(t, i)) + self.dphi(t, i); }
     }
     fn jac(&self, t: f64, y: &[f64], j: &mut Matrix) {
         if self.user_jac { for i in 0..y.len() { for k in 0..y.len() { j[(i, k)] = if i == k { -self.sign * self.lam[i] } else { 0.0 }; } } }
         else {
-            let n = y.len(); let mut yp = y.to_vec(); let mut f0 = vec![0.0; n]; let mut f1 = vec![0.0; n];
-            self.ode(t, y, &mut f0);
-            let eps = f64::EPSILON.sqrt();
-            for c in 0..n { let yo = y[c]; let p = eps * yo.abs().max(1.0); yp[c] = yo + p; self.ode(t, &yp, &mut f1); yp[c] = yo; for r in 0..n { j[(r, c)] = (f1[r] - f0[r]) / p; } }
+            // the trait's own default body (src/ivp.rs)
+            struct D<'a>(&'a PR);
+            impl<'a> IVP for D<'a> { fn ode(&self, t: f64, y: &[f64], d: &mut [f64]) { self.0.ode(t, y, d) } }
+            D(self).jac(t, y, j);
         }
     }
 }
@@ -671,7 +677,7 @@ pub fn stiff(args: &[String]) {
         let pattern: Vec<f64> = (0..n).map(|_| rng.range(0.1, 1.0)).collect();
         for ex in [2.0, 4.0, 6.0, 8.0, 10.0] {
             let lam: Vec<f64> = pattern.iter().enumerate().map(|(i, u)| if i == 0 { 10f64.powf(ex) } else { 10f64.powf(ex * u) }).collect();
-            let p = PR { lam, sign: if back { -1.0 } else { 1.0 }, user_jac };
+            let p = PR { lam, sign: if back { -1.0 } else { 1.0 }, user_jac, big: 0.0 };
             let y0: Vec<f64> = (0..n).map(|i| (x0 + i as f64).cos()).collect();
             let o = Options::builder().method(method).rtol(rtol).atol(atol).build();
             match catch_unwind(AssertUnwindSafe(|| solve_ivp(&p, x0, xend, &y0, o))) {
@@ -693,6 +699,48 @@ pub fn stiff(args: &[String]) {
             if mx > 3 * mn + 60 { why = format!("step counts grow with the stiffness ratio: {:?} for 1e2..1e10", steps); key = "c14-steps"; }
         }
         r14(case, "prothero-robinson", method, key, &why, &format!("\"n\":{},\"user_jac\":{},\"rtol\":{},\"x0\":{},\"back\":{},\"steps\":{:?},", n, user_jac, jnum(rtol), x0, back, steps));
+    }
+    // the same test equation around a large NEGATIVE slow solution (-1e9 .. -3e9): the finite-difference increment must follow
+    // |y_j|, otherwise it is absorbed, the Jacobian column vanishes and the stiff solvers fall back to explicit-size steps
+    {
+        let mut k = 0;
+        for method in [Method::RADAU, Method::BDF] { for back in [false, true] {
+            let (rtol, atol, big) = (1e-6, 1e-3, 1e9);
+            let mut counts: Vec<(usize, usize)> = vec![];
+            let (mut why, mut key) = (String::new(), "");
+            for ex in [2.0, 4.0, 6.0, 8.0] {
+                let mut pair = [0usize; 2];
+                for (q, user_jac) in [true, false].iter().enumerate() {
+                    let p = PR { lam: vec![10f64.powf(ex), 10f64.powf(ex / 2.0)], sign: if back { -1.0 } else { 1.0 }, user_jac: *user_jac, big };
+                    let (x0, xend) = (0.0, if back { -2.0 } else { 2.0 });
+                    let y0: Vec<f64> = (0..2).map(|i| p.phi(x0, i)).collect();
+                    let mut o = Options::builder().method(method).rtol(rtol).atol(atol).build();
+                    o.max_steps = Some(20_000);
+                    match catch_unwind(AssertUnwindSafe(|| solve_ivp(&p, x0, xend, &y0, o))) {
+                        Ok(Ok(s)) => {
+                            pair[q] = s.nstep;
+                            if s.status != Status::Success && why.is_empty() { why = format!("stiffness 1e{}, {} Jacobian: status {:?} after {} steps", ex, if *user_jac { "analytic" } else { "finite-difference" }, s.status, s.nstep); key = "c14-status"; }
+                            if why.is_empty() {
+                                let nacc = s.naccpt.max(1) as f64;
+                                for (t, y) in s.t.iter().zip(s.y.iter()) { for i in 0..2 {
+                                    let e = (y[i] - p.phi(*t, i)).abs();
+                                    let b = 10.0 * nacc * (atol + rtol * p.phi(*t, i).abs());
+                                    if e > b && why.is_empty() { why = format!("stiffness 1e{}: component {} at t = {} off by {:.3e} (> {:.3e})", ex, i, t, e, b); key = "c14-accuracy"; }
+                                } }
+                            }
+                        }
+                        _ => { if why.is_empty() { why = format!("stiffness 1e{}: run fails", ex); key = "c14-status"; } }
+                    }
+                }
+                counts.push((pair[0], pair[1]));
+            }
+            if why.is_empty() {
+                let (mn, mx) = (counts.iter().map(|c| c.0.min(c.1)).min().unwrap(), counts.iter().map(|c| c.0.max(c.1)).max().unwrap());
+                if mx > 3 * mn + 60 { why = format!("step counts (analytic, finite-difference Jacobian) grow with the stiffness ratio or with the Jacobian source: {:?} for 1e2..1e8", counts); key = "c14-steps"; }
+            }
+            r14(800000 + k, "prothero-robinson-large-negative", method, key, &why, &format!("\"back\":{},\"steps_analytic_fd\":{:?},", back, counts.iter().map(|c| vec![c.0, c.1]).collect::<Vec<_>>()));
+            k += 1;
+        } }
     }
     // Robertson and Van der Pol
     // (Van der Pol over three periods' worth of fast transitions, at loose and moderate tolerances: many recovered Newton failures)
